@@ -78,8 +78,10 @@ func (hh *heads) Replace(ctx context.Context, old cid.Cid, new cid.Cid, height u
 // List returns the list of current heads plus the max height.
 // @todo Document Heads.List function
 func (hh *heads) List(ctx context.Context) ([]cid.Cid, uint64, error) {
+	// The namespace must be matched as a whole key segment: without the separator the heads of
+	// field "2" would include those of the fields "20", "21", ... (and collection 1 those of 10, ...).
 	iter, err := hh.store.Iterator(ctx, corekv.IterOptions{
-		Prefix: hh.namespace.Bytes(),
+		Prefix: append(hh.namespace.Bytes(), '/'),
 	})
 	if err != nil {
 		return nil, 0, err
